@@ -12,6 +12,7 @@ inline State &st() { static State s; return s; }
 inline void at_exit_flush() { VR.finish(); }
 // call first in LLVMFuzzerTestOneInput
 inline void begin(const uint8_t *data, size_t size) {
+    (void)VR;   // construct the Report before registering the exit hook, so that it is destroyed after the hook ran
     State &s = st();
     if (!s.hooked) { s.hooked = true; atexit(at_exit_flush); }
     s.data = data; s.size = size;
